@@ -327,7 +327,34 @@ class Program:
                     else:
                         stmts[si] = ('assign', s[1], (rv[0], rv[1], list(rv[2]) + [('?', ('const', '!missing-capture'))] * missing))
 
+    def disambiguate_closures(self, closures_by_loc):
+        """closures created by one macro expanded several times share their source location: the k-th closure aggregate of that
+        location inside a function (textual order) is the function's k-th closure body of that location"""
+        for loc, fs in closures_by_loc.items():
+            if len(fs) < 2:
+                continue
+            parents = {}
+            for f in fs:
+                m = re.match(r'^(.*)::\{closure#(\d+)\}$', f.name)
+                if m:
+                    parents.setdefault(m.group(1), []).append((int(m.group(2)), f))
+            for pname, bodies in parents.items():
+                bodies.sort(key=lambda x: x[0])
+                cands = [g for g in self.all_funcs() if g.name == pname]
+                for g in cands:
+                    k = 0
+                    for bb in sorted(g.blocks, key=lambda b: int(b[2:])):
+                        stmts = g.blocks[bb][0]
+                        for si, st in enumerate(stmts):
+                            if st[0] == 'assign' and st[2][0] == 'closure' and st[2][1].startswith('{closure@' + loc + '}'):
+                                if k < len(bodies):
+                                    tag = '%s#%d' % (loc, bodies[k][0])
+                                    self.closures[tag] = bodies[k][1]
+                                    stmts[si] = ('assign', st[1], ('closure', '{closure@' + tag + '}', st[2][2]))
+                                k += 1
+
     def index(self):
+        closures_by_loc = {}
         impl_cache = {}
         for f in self.all_funcs():
             name = f.name
@@ -338,6 +365,7 @@ class Program:
                 mm = re.search(r'\{closure@([^}]*)\}', t)
                 if mm and not t.startswith('Pin<'):
                     self.closures[mm.group(1)] = f
+                    closures_by_loc.setdefault(mm.group(1), []).append(f)
             if f.kind == 'const':
                 self.const_multi.setdefault(name, []).append(f)
                 self.consts.setdefault(name, f)
@@ -376,6 +404,7 @@ class Program:
             elif not m and not mc and '{' not in name:
                 segs = tuple(s for s in re.sub(r'<[^<>]*>', '', name).split('::') if s)
                 self.free.setdefault(segs[-1], []).append((segs, f))
+        self.disambiguate_closures(closures_by_loc)
 
     def self_from_header(self, f):
         """Self type of a method from the MIR header when the source header cannot tell (macros, derives)"""
